@@ -26,6 +26,7 @@ type Obligation struct {
 	Expect string // "unsat" (proof) or "sat" (cover)
 	Pos    string
 	Quant  bool
+	Havocked bool // an external call without a specification was made on the path (everything modelled was havocked)
 	Definite bool // the goal is literally false: reaching this point is the violation (no solver incompleteness involved)
 	Batched bool
 	Host   string // function under verification when the obligation arose in an inlined helper
@@ -252,7 +253,7 @@ func (ex *Exec) oblige(st *State, kind, label string, props []string, goal *Term
 		return
 	}
 	name := fmt.Sprintf("%s/%s#%s", fnKey, kind, label)
-	ob := &Obligation{Name: name, Func: fnKey, Host: ex.fnKey, Kind: kind, Label: label, Props: props, Goal: goal, Expect: "unsat",
+	ob := &Obligation{Name: name, Func: fnKey, Host: ex.fnKey, Kind: kind, Label: label, Props: props, Goal: goal, Expect: "unsat", Havocked: st.Dirty["*"],
 		Hyps: append([]*Term(nil), st.PC...), Trace: append([]string(nil), st.Trace...)}
 	if pos.IsValid() {
 		p := ex.prog.Fset.Position(pos)
